@@ -130,6 +130,29 @@ pub fn reset(env: &Env, items: BTreeMap<Pos, u32>, item_parts: BTreeMap<u32, (Ra
         w.tokens = tokens;
         w.log.clear();
         w.hash_calls = 0;
+    });
+    // hook H1: the duplicate-key set inside darling's map conversions hashes with the same state
+    #[cfg(darling_verif)]
+    darling_core::verif::set_hasher(env.hasher_mode, env.hasher_seed);
+}
+
+/// Change only the hasher state (C14.R3 re-runs).
+pub fn set_hasher(mode: u8, seed: u64) {
+    WORLD.with(|w| {
+        let mut w = w.borrow_mut();
+        w.hasher_mode = mode;
+        w.hasher_seed = seed;
+    });
+    #[cfg(darling_verif)]
+    darling_core::verif::set_hasher(mode, seed);
+}
+
+/// Put the scenario's faults back (after a fault-free re-parse), keep the rest.
+pub fn reset_faults(env: &Env) {
+    WORLD.with(|w| {
+        let mut w = w.borrow_mut();
+        w.faults = env.faults.iter().cloned().collect();
+        w.log.clear();
     })
 }
 
